@@ -185,7 +185,7 @@ func (g *Gen) loopEffects(li loopInfo, h *ssa.BasicBlock) loopEffects {
 						switch {
 						case strings.HasPrefix(m, "$"):
 							le.ghosts[m] = true
-						case strings.HasPrefix(m, "mem("):
+						case strings.HasPrefix(m, "mem(") || m == "mem":
 							le.elems = true
 						case strings.HasPrefix(m, "sink("):
 							le.elems = true
